@@ -186,4 +186,23 @@ theorem ensureRow_old (r x : Nat) (rows : List (Row × Nat)) (j : Nat) (p : Row 
   · exact h
   · exact Umya.InternC01.getElem?_append_left' h
 
+open Umya.StyleCodec in
+theorem ensureCol_map_norm (k x : Nat) (cols : List (Col × Nat × Nat × Nat)) :
+    (ensureCol k x cols).map (fun p => (p.1.norm, p.2)) = ensureCol k x (cols.map (fun p => (p.1.norm, p.2))) := by
+  have hany : (cols.map (fun p => (p.1.norm, p.2))).any (fun p => p.2.1 == k) = cols.any (fun p => p.2.1 == k) := by
+    simp [List.any_map, Function.comp_def]
+  unfold ensureCol
+  rw [hany]
+  cases cols.any (fun p => p.2.1 == k)
+  · simp [Col.norm, normFlag]
+  · simp
+
+open Umya.StyleCodec in
+theorem ensureCol_old (k x : Nat) (cols : List (Col × Nat × Nat × Nat)) (j : Nat) (p : Col × Nat × Nat × Nat)
+    (h : cols[j]? = some p) : (ensureCol k x cols)[j]? = some p := by
+  unfold ensureCol
+  split
+  · exact h
+  · exact Umya.InternC01.getElem?_append_left' h
+
 end Umya.CellXml
